@@ -39,7 +39,8 @@ const char *C01_CLASSES[] = {"launch-count", "not-all-terminated", "done-count",
                              "packet-duplicated", "packet-after-termination",
                              "termination-cause", "task-nesting", "launch",
                              "buffer-overflow", "nontermination",
-                             "packet-never-ends", nullptr};
+                             "packet-never-ends", "lock-not-held",
+                             "source-buffer-shared", nullptr};
 const char *C04_CLASSES[] = {"mass-not-conserved", "momentum-not-conserved",
                              "energy-not-conserved", "unphysical-state",
                              nullptr};
